@@ -8,7 +8,7 @@ from sa.cfg import all_paths_pass, dominators, reachable, reaches, specialize, t
 from sa.db import AnalysisError, bind_args, dotted, src, walk_local
 from sa.flow import defs_reaching, reaching_defs
 from sa.model import contains, enclosing, execute_impl_funcs, superstep_funcs
-from sa.variants import Variant, replace_once, sub_first, sub_once
+from sa.variants import Variant, chain, replace_once, sub_first, sub_once
 
 from .c03 import check_ready_conjunction
 from .common import call_names, vars_from_call
@@ -336,10 +336,10 @@ TY = "src/hypergraph/runners/_shared/types.py"
 VARIANTS = [
     Variant("async-executor-awaits-any-awaitable", "src/hypergraph/runners/async_/executors/function_node.py", replace_once("        if inspect.iscoroutine(result):", "        if inspect.isawaitable(result):"), {"C01.R8"}),
     Variant("async-versions-from-new-state", "src/hypergraph/runners/async_/superstep.py", replace_once("input_versions = {param: state.get_version(param) for param in node.inputs}", "input_versions = {param: new_state.get_version(param) for param in node.inputs}"), {"C01.R6"}),
-    Variant("bound-before-state", HP, replace_once("    # 1. Edge value (from upstream node output)\n    if param in state.values:\n        return (ValueSource.EDGE, state.values[param])\n\n    # 2. Input value (from run() call)\n    if param in provided_values:\n        return (ValueSource.PROVIDED, provided_values[param])\n\n    # 3. Bound value (from graph.bind()) - check both graph and GraphNode\n    if param in graph.inputs.bound:\n        return (ValueSource.BOUND, graph.inputs.bound[param])\n", "    # 3. Bound value (from graph.bind()) - check both graph and GraphNode\n    if param in graph.inputs.bound:\n        return (ValueSource.BOUND, graph.inputs.bound[param])\n\n    # 1. Edge value (from upstream node output)\n    if param in state.values:\n        return (ValueSource.EDGE, state.values[param])\n\n    # 2. Input value (from run() call)\n    if param in provided_values:\n        return (ValueSource.PROVIDED, provided_values[param])\n"), {"C01.R1"}),
-    Variant("twin-provided-bound-swapped", HP, replace_once("    # 2. Input value (from run() call)\n    if param in provided_values:\n        return (ValueSource.PROVIDED, provided_values[param])\n\n    # 3. Bound value (from graph.bind()) - check both graph and GraphNode\n    if param in graph.inputs.bound:\n        return (ValueSource.BOUND, graph.inputs.bound[param])\n", "    # 3. Bound value (from graph.bind()) - check both graph and GraphNode\n    if param in graph.inputs.bound:\n        return (ValueSource.BOUND, graph.inputs.bound[param])\n\n    # 2. Input value (from run() call)\n    if param in provided_values:\n        return (ValueSource.PROVIDED, provided_values[param])\n"), set()),
-    Variant("default-before-inner-bound", HP, replace_once("    # 3b. For GraphNode: check if inner graph has it bound\n    if isinstance(node, GraphNode):\n        original_param = node._resolve_original_input_name(param)\n        if original_param in node._graph.inputs.bound:\n            return (ValueSource.BOUND, node._graph.inputs.bound[original_param])\n\n    # 4. Function default (from signature)\n    if node.has_signature_default_for(param):\n        default = node.get_signature_default_for(param)\n        return (ValueSource.DEFAULT, default)\n", "    # 4. Function default (from signature)\n    if node.has_signature_default_for(param):\n        default = node.get_signature_default_for(param)\n        return (ValueSource.DEFAULT, default)\n\n    # 3b. For GraphNode: check if inner graph has it bound\n    if isinstance(node, GraphNode):\n        original_param = node._resolve_original_input_name(param)\n        if original_param in node._graph.inputs.bound:\n            return (ValueSource.BOUND, node._graph.inputs.bound[original_param])\n"), {"C01.R1"}),
-    Variant("no-inner-bound-branch", HP, sub_once(r"    # 3b\. For GraphNode: check if inner graph has it bound\n    if isinstance\(node, GraphNode\):\n        original_param = node\._resolve_original_input_name\(param\)\n        if original_param in node\._graph\.inputs\.bound:\n            return \(ValueSource\.BOUND, node\._graph\.inputs\.bound\[original_param\]\)\n\n", ""), {"C01.R1", "C01.R2"}),
+    Variant("bound-before-state", HP, chain(replace_once("    if param in graph._bound:\n        return (ValueSource.BOUND, graph._bound[param])\n", ""), replace_once("    if param in state.values:\n        return (ValueSource.EDGE, state.values[param])\n", "    if param in graph._bound:\n        return (ValueSource.BOUND, graph._bound[param])\n    if param in state.values:\n        return (ValueSource.EDGE, state.values[param])\n")), {"C01.R1"}),
+    Variant("twin-provided-bound-swapped", HP, chain(replace_once("    if param in provided_values:\n        return (ValueSource.PROVIDED, provided_values[param])\n", ""), replace_once("    if param in graph._bound:\n        return (ValueSource.BOUND, graph._bound[param])\n", "    if param in graph._bound:\n        return (ValueSource.BOUND, graph._bound[param])\n    if param in provided_values:\n        return (ValueSource.PROVIDED, provided_values[param])\n")), set()),
+    Variant("default-before-inner-bound", HP, chain(replace_once("    if node.has_signature_default_for(param):\n        default = node.get_signature_default_for(param)\n        return (ValueSource.DEFAULT, default)\n", ""), replace_once("    if isinstance(node, GraphNode):\n        original_param = node._resolve_original_input_name(param)\n        if original_param in node._graph.inputs.bound:\n            return (ValueSource.BOUND, node._graph.inputs.bound[original_param])\n", "    if node.has_signature_default_for(param):\n        default = node.get_signature_default_for(param)\n        return (ValueSource.DEFAULT, default)\n    if isinstance(node, GraphNode):\n        original_param = node._resolve_original_input_name(param)\n        if original_param in node._graph.inputs.bound:\n            return (ValueSource.BOUND, node._graph.inputs.bound[original_param])\n")), {"C01.R1"}),
+    Variant("no-inner-bound-branch", HP, replace_once("    if isinstance(node, GraphNode):\n        original_param = node._resolve_original_input_name(param)\n        if original_param in node._graph.inputs.bound:\n            return (ValueSource.BOUND, node._graph.inputs.bound[original_param])\n", ""), {"C01.R1", "C01.R2"}),
     Variant("seed-skips-none", HP, replace_once("    for name, value in values.items():\n        state.update_value(name, value)\n", "    for name, value in values.items():\n        if value is not None:\n            state.update_value(name, value)\n"), {"C01.R1"}),
     Variant("ready-ignores-bound", HP, replace_once("    # Bound value in graph\n    if param in graph.inputs.bound:\n        return True\n\n", ""), {"C01.R2"}),
     Variant("ready-without-inputs-check", HP, replace_once("    if not _has_all_inputs(node, graph, state):\n        return False\n", ""), {"C01.R3"}),
